@@ -365,11 +365,13 @@ func NewWALDecoder(rd io.Reader) *WALDecoder {
 func (dec *WALDecoder) Decode() (*TimedWALMessage, error) {
 	b := make([]byte, 4)
 
-	_, err := dec.rd.Read(b)
-	if errors.Is(err, io.EOF) {
+	nr, err := dec.rd.Read(b)
+	if errors.Is(err, io.EOF) && nr == 0 {
+		// clean end of the log: nothing follows the last record
 		return nil, err
 	}
 	if err != nil {
+		// includes a torn checksum (1-3 bytes followed by EOF)
 		return nil, DataCorruptionError{fmt.Errorf("failed to read checksum: %v", err)}
 	}
 	crc := binary.BigEndian.Uint32(b)
